@@ -14,6 +14,9 @@
 //!   boundaries of the text; a rendering (`{}`, `{:?}`, with_path, renamed_rules) that panics; docs::consume panicking
 //!   on an accepted grammar; an empty error list.
 //! Final line: #SUMMARY evaluations=.. distinct_nontrivial=.. and per-class / per-kind counters.
+//! Mode `lad`: ladders, chains of rules in which every rule mentions the next one two or three times (see `ladder_run`); a slow or killed
+//! ladder is printed with the token forest taken in this process, and the runner asks the model of the unmodified front end whether the
+//! text belongs to the registered exponential class.
 //! Mode `cyc`: grammars around one cycle of rule references (see `cyc_grammar`).  Mode `escalate <file>`: the search that the driver
 //! starts from texts on which implementation and model disagree (see `escalate_one`); same output lines, same oracle.
 use pest::error::{Error, ErrorVariant, InputLocation};
@@ -654,7 +657,10 @@ fn forest_of(text: &str) -> String {
             _ => "-".to_string(),
         }
     });
-    h.ok().and_then(|h| h.join().ok()).unwrap_or_else(|| "-".to_string())
+    // the meta-parse of a text of this size takes milliseconds; should it not come back, the case goes on without a forest
+    let (tx, rx) = channel();
+    if let Ok(h) = h { std::thread::spawn(move || { let _ = tx.send(h.join().ok()); }); }
+    match rx.recv_timeout(Duration::from_millis(5000)) { Ok(Some(f)) => f, _ => "-".to_string() }
 }
 
 /// how a rule mentions the next one ({X}): the body with two mentions, and what one more mention appends.  One entry per operator
@@ -695,6 +701,8 @@ const LAD_ENTRIES: [&str; 20] = [
     "{E} = ${ \"z\" ~ ({X} | \"z\")? }", "",
 ];
 
+/// a ladder whose worker has not answered after this time is killed (twice the limit of the property)
+const LAD_HARD_MS: u64 = 4000;
 struct Ladder { links: Vec<usize>, k: usize, leaf: usize, entry: usize, modifier: &'static str, first: bool, descending: bool, stack_mid: bool }
 
 fn ladder_text(l: &Ladder, depth: usize) -> String {
@@ -716,27 +724,29 @@ fn ladder_text(l: &Ladder, depth: usize) -> String {
     rules.join("\n") + "\n"
 }
 
-/// One ladder, deepened step by step (8, 12, .. `max_depth` rules).  When the running time starts to multiply with the depth, the
+/// One ladder, deepened step by step (8, 14, 20, 28, `max_depth` rules).  When the running time starts to multiply with the depth, the
 /// next depth is the one at which the extrapolated time passes the limit of the property, so that a ladder on which the front end is
 /// exponential costs one slow evaluation (seconds), not one per depth.  Returns true when an evaluation was slow or the worker died.
 fn ladder_run<W: Write>(out: &mut Out<W>, l: &Ladder, max_depth: usize) -> bool {
     let mut d = 8usize.min(max_depth);
+    let step = |d: usize| -> usize { (if d < 20 { d + 6 } else if d < 28 { 28 } else { d + 12 }).min(max_depth) };
     let mut prev: Option<(usize, u128)> = None;
     loop {
         let t = ladder_text(l, d);
         let c = out.run("lad", &t);
+        let _ = out.w.flush();   // the runner works on this case while the next one runs
         let ms = out.last_ms;
         if c == "TIMEOUT" || c == "CRASH" {
-            writeln!(out.w, "#LADSLOW\tlinks={:?}\tk={}\tleaf={}\tentry={}\tdepth={}\tms={}\tclass={}", l.links, l.k, l.leaf, l.entry, d, ms, c).unwrap();
+            writeln!(out.w, "#LADSLOW\tlinks={:?} k={} leaf={} entry={} depth={} ms={} class={}", l.links, l.k, l.leaf, l.entry, d, ms, c).unwrap();
             return true;
         }
         if d >= max_depth { return false; }
-        let mut next = (d + 4).min(max_depth);
+        let mut next = step(d);
         if let Some((pd, pms)) = prev {
             if ms >= 24 && ms >= 3 * pms.max(1) {
                 // per-rule factor of the time, and the depth at which it passes 1.5 x the limit
                 let r = (ms as f64 / pms.max(1) as f64).powf(1.0 / (d - pd) as f64);
-                let need = ((1.5 * SOFT_MS as f64) / ms as f64).ln() / r.ln();
+                let need = ((1.3 * SOFT_MS as f64) / ms as f64).ln() / r.ln();
                 next = (d + (need.ceil().max(1.0) as usize)).min(max_depth);
             }
         }
@@ -760,7 +770,7 @@ fn random_ladder(r: &mut Rng) -> Ladder {
 /// ladders <seed> <n> <max slow> <max depth>: `n` ladders; every link with a plain entry first (in an order drawn from the seed), then
 /// random combinations.  Stops after `max slow` ladders that were slow / killed (each costs seconds).
 fn ladders<W: Write>(out: &mut Out<W>, rng: &mut Rng, n: u64, max_slow: u64, max_depth: usize) {
-    out.hard_ms = ESC_HARD_MS;
+    out.hard_ms = LAD_HARD_MS;
     out.parent_forest = true;
     let mut order: Vec<usize> = (0..LAD_LINKS.len()).collect();
     shuffle(rng, &mut order);
